@@ -155,6 +155,13 @@ CLAIMS = {
             "multi-alternative (NULL | T | String) argument typings and NULL in each position; TLC checks ValueInType(value, reported type) on every observation.",
             "Expression level (aggregates and file schemas are covered by C03/C24 runs).", "TLA+ type denotation + TLC check of observed (type, value) pairs from the real pipeline",
             "DESIGN.md 6/C08"),
+    "C05": ("model_checking",
+            "Relational.tla family 'limit' enumerates every table of <= 4 rows over 3 distinct rows (duplicates) x LIMIT 0..4 x 4 ORDER BY shapes x {top level, "
+            "subquery in FROM} with the expected tie groups; the in-process engine runs the family with both optimiser settings, a second family nests ORDER BY "
+            "+ LIMIT over retracting sources (groupings with COUNTING triggers), and the real binary prints sampled cases in live_table, batch_table, csv, json "
+            "and stream_native, whose output is decoded and compared. Two defects found were repaired.",
+            "Table modes are decoded from the last printed frame. CLI part sampled in quick.", "TLA+ relational spec + exhaustive small family replayed through engine and the real CLI in five output modes",
+            "DESIGN.md 6/C05"),
 }
 
 NA_DEFAULT = "check not built yet (work in progress; will be claimed once its TLA+ spec and conformance harness are committed)"
